@@ -176,9 +176,12 @@ Lemma run_iterstop : forall a, run (S f) fx idx (IIterStop a :: k) st = run f fx
 Proof. reflexivity. Qed.
 Lemma run_return : run (S f) fx idx (IReturn :: k) st = (Ret, st).
 Proof. reflexivity. Qed.
+Lemma run_returncheck : forall ok, run (S f) fx idx (IReturnCheck ok :: k) st = (if ok then Ret else RetErr, st).
+Proof. reflexivity. Qed.
 Lemma run_call : forall body, run (S f) fx idx (ICall body :: k) st =
   match run f fx idx body st with
   | (Next, st1) | (Ret, st1) => run f fx idx k st1
+  | (RetErr, st1) => (Error TypeMismatch, st1)
   | (Error e, st1) => (Error e, st1)
   | (NoFuel, st1) => (NoFuel, st1)
   | (_, st1) => (Error Internal, st1)
@@ -197,6 +200,7 @@ Lemma loop_S : forall a body i, loop (S f) fx a body i st =
     | (Next, st1) | (Cont, st1) => loop f fx a body (S i) st1
     | (Brk, st1) => (Next, st1)
     | (Ret, st1) => (Ret, st1)
+    | (RetErr, st1) => (RetErr, st1)
     | (Error e, st1) => (Error e, if fx then unlock st1 a else st1)
     | (NoFuel, st1) => (NoFuel, st1)
     end
@@ -207,6 +211,7 @@ Lemma bloop_S : forall early a cb i, bloop (S f) fx early a cb i st =
   else if has_elem st a i then
     match run f fx i cb st with
     | (Next, st1) | (Ret, st1) => bloop f fx early a cb (S i) st1
+    | (RetErr, st1) => (Error TypeMismatch, unlock st1 a)
     | (Error e, st1) => (Error e, unlock st1 a)
     | (NoFuel, st1) => (NoFuel, st1)
     | (_, st1) => (Error Internal, unlock st1 a)
@@ -233,6 +238,17 @@ Proof.
   - cbn [stops fold_right] in H. fold (stops t (IReturn :: k)) in H. rewrite run_iterstop in H. apply IH in H. simpl. exact H.
 Qed.
 
+(* ... and before the return of a def with a declared return type (InstrReturnCheckType) *)
+Lemma run_stops_chk : forall fx idx k ok ls fuel st r st',
+  run fuel fx idx (stops ls (IReturnCheck ok :: k)) st = (r, st') ->
+  r = NoFuel \/ (r = (if ok then Ret else RetErr) /\ st' = unlock_all ls st).
+Proof.
+  induction ls as [|a t IH]; intros fuel st r st' H; destruct fuel as [|f];
+    try (rewrite run_0 in H; inversion H; left; reflexivity).
+  - cbn [stops fold_right] in H. rewrite run_returncheck in H. inversion H; right; split; reflexivity.
+  - cbn [stops fold_right] in H. fold (stops t (IReturnCheck ok :: k)) in H. rewrite run_iterstop in H. apply IH in H. simpl. exact H.
+Qed.
+
 (* ------------------------------------------------------------------ the main invariant *)
 Section Main.
 Variable fx : bool.
@@ -241,7 +257,7 @@ Definition post (ls : list addr) (st : store) (r : sig) (st' : store) : Prop :=
   match r with
   | Next | Cont => same st st'
   | Brk => match ls with a :: _ => rel a st st' | [] => False end
-  | Ret => forall b, iter_count st' b + occ b ls = iter_count st b
+  | Ret | RetErr => forall b, iter_count st' b + occ b ls = iter_count st b
   | Error _ => fx = true -> same st st'
   | NoFuel => True
   end.
@@ -249,7 +265,7 @@ Definition post (ls : list addr) (st : store) (r : sig) (st' : store) : Prop :=
 Definition post_loop (a : addr) (ls : list addr) (st : store) (r : sig) (st' : store) : Prop :=
   match r with
   | Next => rel a st st'
-  | Ret => forall b, iter_count st' b + occ b (a :: ls) = iter_count st b
+  | Ret | RetErr => forall b, iter_count st' b + occ b (a :: ls) = iter_count st b
   | Error _ => fx = true -> rel a st st'
   | NoFuel => True
   | Brk | Cont => False
@@ -270,6 +286,7 @@ Proof.
   - destruct ls; [exact P|]. intro b; rewrite P; apply S.
   - intro b; rewrite P; apply S.
   - intro b; rewrite P; apply S.
+  - intro b; rewrite P; apply S.
   - intros F b; rewrite (P F); apply S.
   - exact I.
 Qed.
@@ -277,6 +294,7 @@ Qed.
 Lemma post_loop_trans : forall a ls st st1 r st', same st st1 -> post_loop a ls st1 r st' -> post_loop a ls st r st'.
 Proof.
   intros a ls st st1 r st' S P; destruct r; simpl in *; try exact P.
+  - intro b; rewrite P; apply S.
   - intro b; rewrite P; apply S.
   - intro b; rewrite P; apply S.
   - intros F b; rewrite (P F); apply S.
@@ -324,6 +342,7 @@ Proof.
     + assert (S : same st st2) by (intro b; specialize (P b); specialize (CL b); lia).
       eapply post_trans; [exact S|]. eapply IA; [|exact R]. eapply held_same; eauto.
     + inversion R; subst. intro b; specialize (P b); specialize (CL b); simpl in P; lia.
+    + inversion R; subst. intro b; specialize (P b); specialize (CL b); simpl in P; lia.
     + inversion R; subst. intros F b; specialize (P F b); specialize (CL b); lia.
     + inversion R; subst; exact I.
   - (* SBreak *)
@@ -337,6 +356,9 @@ Proof.
   - (* SReturn *)
     apply run_stops in R. destruct R as [->|[-> ->]]; [exact I|].
     simpl. apply cnt_unlock_all; exact H.
+  - (* SReturnT *)
+    apply run_stops_chk in R. destruct R as [->|[-> ->]]; [exact I|].
+    destruct ok; simpl; apply cnt_unlock_all; exact H.
   - (* SIf *)
     rewrite run_if in R.
     assert (E : (if Nat.eqb idx n then compile ls t else compile ls e) = compile ls (if Nat.eqb idx n then t else e))
@@ -355,6 +377,7 @@ Proof.
     + inversion R; subst. intros _; exact P.
     + assert (S : same st st1) by (intro b; specialize (P b); lia).
       eapply post_trans; [exact S|]. eapply IA; [|exact R]. eapply held_same; eauto.
+    + inversion R; subst. intros _ b; specialize (P b); lia.
     + inversion R; subst. exact P.
     + inversion R; subst; exact I.
   - (* SBuiltin *)
@@ -386,6 +409,7 @@ Proof.
   - inversion R; subst. exact P.
   - eapply post_loop_trans; [exact P|]. eapply IB; [|exact R]. eapply held_same; eauto.
   - inversion R; subst. exact P.
+  - inversion R; subst. exact P.
   - inversion R; subst. intros F. rewrite F. specialize (P F).
     intro b. rewrite cnt_unlock. rewrite P. pose proof (held_top _ _ _ H b). lia.
   - inversion R; subst; exact I.
@@ -405,6 +429,7 @@ Proof.
   - inversion R; subst. intros F b. rewrite cnt_unlock, P. pose proof (one_top _ _ G b). lia.
   - assert (S : same st st1) by (intro b; specialize (P b); lia).
     eapply post_bloop_trans; [exact S|]. eapply IC; [|exact R]. rewrite S; exact G.
+  - inversion R; subst. intros F b. rewrite cnt_unlock. specialize (P b). pose proof (one_top _ _ G b). lia.
   - inversion R; subst. intros F b. rewrite cnt_unlock, (P F). pose proof (one_top _ _ G b). lia.
   - inversion R; subst; exact I.
 Qed.
@@ -439,6 +464,36 @@ Proof.
   destruct (main true fuel) as [IA _].
   exact (IA [] p 0 st _ st' (held_nil st) R eq_refl a).
 Qed.
+
+(* a def with a declared return type: `return e` inside any nesting of loops releases every loop of the frame whether or not
+   the type check of InstrReturnCheckType passes (the passing case is an instance of lock_balanced: SReturnT true ends
+   with Ret); both interpreters *)
+Lemma return_check_failure_released : forall fx fuel p st st',
+  exec fuel fx p st = (RetErr, st') -> forall a, iter_count st' a = iter_count st a.
+Proof.
+  unfold exec; intros fx fuel p st st' R a.
+  destruct (main fx fuel) as [IA _].
+  pose proof (IA [] p 0 st RetErr st' (held_nil st) R) as P.
+  simpl in P. specialize (P a); lia.
+Qed.
+
+(* typed return from three nested loops (two of them over the same container), check passing / failing, and the failing
+   check seen by a caller that is itself inside a loop (the caller's loop is an ordinary error exit: F4) *)
+Definition typed_store : store := of_list [mkCell (VList [1; 2; 3]%Z) 0; mkCell (VList [10; 20]%Z) 0].
+Definition typed_prog (ok : bool) : block :=
+  blk [SFor 1 (blk [SFor 0 (blk [SFor 0 (blk [SIf 1 (blk [SReturnT ok]) BNil])])])].
+Lemma typed_return_examples :
+  fst (exec 100 false (typed_prog true) typed_store) = Ret
+  /\ iter_count (snd (exec 100 false (typed_prog true) typed_store)) 0 = 0
+  /\ iter_count (snd (exec 100 false (typed_prog true) typed_store)) 1 = 0
+  /\ fst (exec 100 false (typed_prog false) typed_store) = RetErr
+  /\ iter_count (snd (exec 100 false (typed_prog false) typed_store)) 0 = 0
+  /\ iter_count (snd (exec 100 false (typed_prog false) typed_store)) 1 = 0
+  /\ fst (exec 100 false (blk [SFor 1 (blk [SCall (typed_prog false)])]) typed_store) = Error TypeMismatch
+  /\ iter_count (snd (exec 100 false (blk [SFor 1 (blk [SCall (typed_prog false)])]) typed_store)) 0 = 0
+  /\ iter_count (snd (exec 100 false (blk [SFor 1 (blk [SCall (typed_prog false)])]) typed_store)) 1 = 1
+  /\ iter_count (snd (exec 100 true (blk [SFor 1 (blk [SCall (typed_prog false)])]) typed_store)) 1 = 0.
+Proof. vm_compute. repeat split. Qed.
 
 (* under the faithful interpreter an error can only leave counts where they were or higher: nothing is
    ever released twice *)
